@@ -366,7 +366,7 @@ def run_unit(unit, want_trace=False):
     inc = ['-I' + os.path.join(VERIF, 'cstl'), '-I' + os.path.join(VERIF, 'contracts'), '-I' + gen, '-I' + udir]
     t0 = time.time()
     res = dict(unit=unit.id, container=unit.container, function=unit.fn, maxcap=unit.maxcap, key=key, cached=False, replaced=unit.replaced())
-    cmd1 = ['goto-cc', '-DCSTL_CBMC', '-DMAXCAP=%d' % unit.maxcap] + inc + ['--function', 'h_' + unit.fn, os.path.join(udir, 'h.c'), '-o', os.path.join(udir, 'a.gb')]
+    cmd1 = ['goto-cc', '-DCSTL_CBMC', '-DMAXCAP=%d' % unit.maxcap] + inc + ['--function', 'h_' + unit.fn, os.path.join(udir, 'h.c'), '-o', os.path.join(udir, 'a.%d.gb' % os.getpid())]
     rc, out, err, _ = run(cmd1, timeout=120)
     if rc != 0:
         res.update(status='error', error='goto-cc: ' + (out + err)[-1500:])
@@ -374,13 +374,13 @@ def run_unit(unit, want_trace=False):
     cmd2 = ['goto-instrument', '--dfcc', 'h_' + unit.fn, '--enforce-contract', unit.fn]
     for c in unit.replaced():
         cmd2 += ['--replace-call-with-contract', c]
-    cmd2 += [os.path.join(udir, 'a.gb'), os.path.join(udir, 'b.gb')]
+    cmd2 += [os.path.join(udir, 'a.%d.gb' % os.getpid()), os.path.join(udir, 'b.%d.gb' % os.getpid())]
     rc, out, err, _ = run(cmd2, timeout=300)
     if rc != 0:
         res.update(status='error', error='goto-instrument: ' + (out + err)[-1500:])
         return res
     unwind = 2 * (unit.maxcap + 1) + 2
-    cmd3 = ['cbmc', os.path.join(udir, 'b.gb'), '--unwind', str(unwind), '--unwinding-assertions'] + CBMC_CHECKS + ['--json-ui']
+    cmd3 = ['cbmc', os.path.join(udir, 'b.%d.gb' % os.getpid()), '--unwind', str(unwind), '--unwinding-assertions'] + CBMC_CHECKS + ['--json-ui']
     if want_trace:
         cmd3.append('--trace')
     rc, out, err, secs = run(cmd3, timeout=unit.timeout)
@@ -421,7 +421,7 @@ def run_unit(unit, want_trace=False):
         res['traces'] = traces
         return res
     json.dump(res, open(resf, 'w'))
-    for f in ('a.gb', 'b.gb'):
+    for f in ('a.%d.gb' % os.getpid(), 'b.%d.gb' % os.getpid()):
         try:
             os.remove(os.path.join(udir, f))
         except OSError:
